@@ -77,7 +77,7 @@ def _run_one(args):
         faulthandler.cancel_dump_traceback_later()
     res["seed"] = seed
     if res["violations"]:
-        res["plan"] = plan
+        res["plan"] = {"__reduce_to__": res.pop("reduce_to")} if res.get("reduce_to") else plan
     elif opts and opts.get("_keep_plan"):
         res["plan"] = plan
     return res
